@@ -88,7 +88,8 @@ def batches(tier):
 # plan generation
 # ----------------------------------------------------------------------------
 
-CLOUD_CLASSES = ["random", "interior", "box", "simplex", "skewed", "flat_const", "flat_dup", "line"]
+CLOUD_CLASSES = ["random", "interior", "box", "simplex", "skewed", "flat_const", "flat_dup", "line",
+                 "few"]
 
 
 def _rot(rng: PlanRng, d):
@@ -115,6 +116,10 @@ def make_cloud(rng: PlanRng, cls, d):
         X = np.vstack([np.zeros(d), np.eye(d)]) * rng.uniform(0.5, 2.0) + 0.2
     elif cls == "skewed":
         X = rng.uniform(0.1, 1.0, (m, d)) * np.array([1.0, 40.0, 0.03, 5.0, 0.5][:d])
+    elif cls == "few":
+        # fewer points than dimensions + 1: necessarily flat (2 points span a segment, ...)
+        X = rng.uniform(0.1, 3.0, (rng.integers(2, d), d))
+        meta["flat"] = True
     elif cls == "flat_const":
         Y = rng.uniform(0.1, 3.0, (m, max(d - 1, 1)))
         X = np.c_[Y, np.full(m, float(sig(rng.uniform(0.2, 2.0))))] if d > 1 else Y
